@@ -392,3 +392,347 @@ lemma_c!(c_short_1_7, GShort, sym_short, 1, 7);
 lemma_c!(c_normall_3_6, GNormalL, sym_normal_l, 3, 6);
 //@ h=c_long_4_4 props=C03 cfgs=K0 tier=q t=400 | funcs: inner::Generator<Long>::update | bound: tail_len0=4, 4 bytes | stubs: mapping + increment logging stubs
 lemma_c!(c_long_4_4, GLong, sym_long, 4, 4);
+
+// ------------------------------------------------------------------ F: finalize == reference
+//
+// `select_nth_unstable` is replaced by an honest order-statistic model: the k-th call on the
+// sub-slice starting `off` elements into the working copy returns the value of global rank
+// off+index of the ORIGINAL bucket multiset (ghost copy), characterised by counting
+// (#{x<q} <= rank < #{x<=q}); this is the documented contract of the std function, given that the
+// earlier call partitioned the copy around its pivot.  Natively the real std function runs.
+
+static mut GHOST: [u32; 256] = [0; 256];
+static mut GHOST_N: usize = 0;
+static mut FREE_MODE: bool = false;
+static mut FREEQ: [u32; 3] = [0; 3];
+static mut ISSUED: [(usize, u32); 8] = [(0, 0); 8];
+static mut ISSUED_N: usize = 0;
+static mut SEL_CALLS: usize = 0;
+static mut SEL_PROBE: bool = false;
+static mut SEL_BASE: *const u32 = core::ptr::null();
+/// (rank requested = offset of the sub-slice in the working copy + index, value returned)
+static mut SEL_LOG: [(usize, u32); 4] = [(0, 0); 4];
+
+/// Order statistic of the ghost multiset by its defining (counting) property: the value q of
+/// rank r satisfies #{x < q} <= r < #{x <= q}.  The witness is unique.  Monotonicity of order
+/// statistics in the rank (a theorem, implied by the counting property) is added explicitly with
+/// respect to every value handed out before, because SAT cannot derive it from the adders.
+fn ghost_rank_value(rank: usize) -> u32 {
+    let n = unsafe { GHOST_N };
+    assert!(rank < n);
+    if unsafe { FREE_MODE } {
+        // over-approximation used for the 128/256-counter instances: ANY q1 <= q2 <= q3 (a
+        // superset of the real order statistics); only the three ranks TLSH defines may be asked.
+        let fq = unsafe { FREEQ };
+        if rank == n / 4 - 1 {
+            return fq[0];
+        } else if rank == n / 2 - 1 {
+            return fq[1];
+        } else if rank == 3 * n / 4 - 1 {
+            return fq[2];
+        }
+        panic!("order statistic of an unexpected rank requested");
+    }
+    let q: u32 = kani::any();
+    let mut lt = 0usize;
+    let mut le = 0usize;
+    let mut i = 0;
+    while i < n {
+        let x = unsafe { GHOST[i] };
+        if x < q {
+            lt += 1;
+        }
+        if x <= q {
+            le += 1;
+        }
+        i += 1;
+    }
+    kani::assume(lt <= rank && rank < le);
+    let m = unsafe { ISSUED_N };
+    let mut j = 0;
+    while j < m {
+        let (r0, v0) = unsafe { ISSUED[j] };
+        if r0 <= rank {
+            kani::assume(v0 <= q);
+        }
+        if r0 >= rank {
+            kani::assume(v0 >= q);
+        }
+        j += 1;
+    }
+    unsafe {
+        assert!(m < 8);
+        ISSUED[m] = (rank, q);
+        ISSUED_N = m + 1;
+    }
+    q
+}
+
+fn ghost_set(b: &[u32], n: usize) {
+    let mut i = 0;
+    while i < n {
+        unsafe {
+            GHOST[i] = b[i];
+        }
+        i += 1;
+    }
+    unsafe {
+        GHOST_N = n;
+        ISSUED_N = 0;
+    }
+}
+
+fn stub_select<T: Ord>(s: &mut [T], index: usize) -> (&mut [T], &mut T, &mut [T]) {
+    assert!(core::mem::size_of::<T>() == 4);
+    let len = s.len();
+    assert!(index < len); // the real function panics otherwise
+    let p = s.as_mut_ptr() as *mut u32;
+    unsafe {
+        if SEL_PROBE {
+            SEL_CALLS += 1;
+        } else {
+        if SEL_CALLS == 0 {
+            SEL_BASE = p as *const u32;
+        }
+        let off = (p as *const u32).offset_from(SEL_BASE) as usize;
+        let q = ghost_rank_value(off + index);
+        if SEL_CALLS < 4 {
+            SEL_LOG[SEL_CALLS] = (off + index, q);
+        }
+        SEL_CALLS += 1;
+        *p.add(index) = q;
+        }
+    }
+    let (l, r) = s.split_at_mut(index);
+    let (m, r) = r.split_first_mut().unwrap();
+    (l, m, r)
+}
+
+/// `true` iff the select_nth_unstable stub is in force (Kani), `false` natively.
+fn select_stub_active() -> bool {
+    unsafe {
+        SEL_PROBE = true;
+        SEL_CALLS = 0;
+    }
+    let mut probe = [1u32, 0u32];
+    let _ = probe.select_nth_unstable(0);
+    let n = unsafe { SEL_CALLS };
+    unsafe {
+        SEL_PROBE = false;
+        SEL_CALLS = 0;
+    }
+    n == 1
+}
+
+/// Order statistic for the oracle side (same defining property, fresh witness).
+fn oracle_rank(_b: &[u32], rank: usize) -> u32 {
+    ghost_rank_value(rank)
+}
+
+/// Contract of `FuzzyHashLengthEncoding::new` (proved for all 2^32 lengths by c09_new_total and
+/// c09_code_def): None above the maximum, else the unique code with ref_lo(code) <= len <= top(code).
+fn stub_len_new(len: u32) -> Option<FuzzyHashLengthEncoding> {
+    if len > REF_MAX_LEN {
+        return None;
+    }
+    let code: u8 = kani::any();
+    kani::assume(ref_len_code_is(len, code as usize));
+    Some(FuzzyHashLengthEncoding::from_raw(code))
+}
+
+fn sym_options() -> (GeneratorOptions, bool, bool, bool, bool, bool) {
+    let conservative: bool = kani::any();
+    let pure_int: bool = kani::any();
+    let small: bool = kani::any();
+    let half: bool = kani::any();
+    let quarter: bool = kani::any();
+    let mut o = GeneratorOptions::new();
+    o.length_processing_mode(if conservative {
+        DataLengthProcessingMode::Conservative
+    } else {
+        DataLengthProcessingMode::Optimistic
+    })
+    .pure_integer_qratio_computation(pure_int)
+    .allow_small_size_files(small)
+    .allow_statistically_weak_buckets_half(half)
+    .allow_statistically_weak_buckets_quarter(quarter);
+    (o, conservative, pure_int, small, half, quarter)
+}
+
+/// What the reference says about the gates; `Ok(())` = a hash is produced.
+fn ref_gates(
+    total: u64, nb: usize, q3: u32, nonzero: usize, conservative: bool, small: bool, half: bool,
+    quarter: bool,
+) -> Result<(), GeneratorError> {
+    let t32 = if total > u32::MAX as u64 { u32::MAX } else { total as u32 };
+    let cls = ref_validity(t32, nb);
+    if cls == 3 {
+        return Err(GeneratorError::TooLargeInput);
+    }
+    if (cls == 0 || (cls == 1 && conservative)) && !small {
+        return Err(GeneratorError::TooSmallInput);
+    }
+    if q3 == 0 && !quarter {
+        return Err(GeneratorError::BucketsAreThreeQuarterEmpty);
+    }
+    let min_nonzero = if nb == 48 { 18 } else { nb / 2 + 1 };
+    if nonzero < min_nonzero && !(half || quarter) {
+        return Err(GeneratorError::BucketsAreHalfEmpty);
+    }
+    Ok(())
+}
+
+macro_rules! lemma_f {
+    ($name:ident, $ty:ty, $sym:ident, $nb:literal, $sb:literal, $qbits:expr, $check_q:expr, $unw:literal, $mode:literal, $free:literal) => {
+        #[kani::proof]
+        #[kani::unwind($unw)]
+        #[kani::stub(<[u32]>::select_nth_unstable, stub_select)]
+        #[kani::stub(crate::length::FuzzyHashLengthEncoding::new, stub_len_new)]
+        fn $name() {
+            let stubbed = select_stub_active();
+            let len: u32 = kani::any();
+            let tail_len: u32 = kani::any();
+            kani::assume(tail_len <= 4);
+            let g: $ty = $sym(len, tail_len);
+            let (o, conservative, pure_int, small, half, quarter) = sym_options();
+            if $mode & 8 != 0 {
+                kani::assume(pure_int);
+            }
+            let mut b = [0u32; $nb];
+            b.copy_from_slice(&g.buckets.buckets[..$nb]);
+            ghost_set(&b, $nb);
+            unsafe {
+                SEL_CALLS = 0;
+                FREE_MODE = $free && stubbed;
+                if FREE_MODE {
+                    let fq: [u32; 3] = kani::any();
+                    kani::assume(fq[0] <= fq[1] && fq[1] <= fq[2]);
+                    FREEQ = fq;
+                }
+            }
+            let mut nonzero = 0usize;
+            let mut i = 0;
+            while i < $nb {
+                if b[i] != 0 {
+                    nonzero += 1;
+                }
+                i += 1;
+            }
+            let total = len as u64 + tail_len as u64;
+            let before = (g.len, g.tail_len, g.tail, g.checksum);
+            let r = g.finalize_with_options(&o);
+            // oracle quartiles.  Under the stub: the value the order-statistic model handed to
+            // the code, provided the code asked for the right rank (otherwise an independent
+            // order statistic, so that a wrong rank shows up as a wrong hash).  Natively: by sorting.
+            let (mut q1, mut q2, mut q3);
+            if stubbed {
+                let calls = unsafe { SEL_CALLS };
+                let lg = unsafe { SEL_LOG };
+                q2 = if calls >= 1 && lg[0].0 == $nb / 2 - 1 { lg[0].1 } else { oracle_rank(&b, $nb / 2 - 1) };
+                q1 = if calls >= 2 && lg[1].0 == $nb / 4 - 1 { lg[1].1 } else { oracle_rank(&b, $nb / 4 - 1) };
+                q3 = if calls >= 3 && lg[2].0 == 3 * $nb / 4 - 1 { lg[2].1 } else { oracle_rank(&b, 3 * $nb / 4 - 1) };
+            } else {
+                let mut sorted = b;
+                sorted.sort_unstable();
+                q1 = sorted[$nb / 4 - 1];
+                q2 = sorted[$nb / 2 - 1];
+                q3 = sorted[3 * $nb / 4 - 1];
+            }
+            if let Some(bits) = $qbits {
+                kani::assume(q3 < (1u32 << bits));
+            }
+            let expect = ref_gates(total, $nb, q3, nonzero, conservative, small, half, quarter);
+            // finalize takes &self: nothing observable changed
+            assert!((g.len, g.tail_len, g.tail, g.checksum) == before);
+            let kk: usize = kani::any();
+            kani::assume(kk < 256);
+            if kk < $nb {
+                assert!(g.buckets.buckets[kk] == b[kk]);
+            }
+            match r {
+                Err(e) => {
+                    if $mode & 1 != 0 {
+                        assert!(expect == Err(e));
+                    }
+                    kani::cover!(e == GeneratorError::TooLargeInput);
+                    kani::cover!(e == GeneratorError::TooSmallInput);
+                    kani::cover!(e == GeneratorError::BucketsAreThreeQuarterEmpty);
+                    kani::cover!(e == GeneratorError::BucketsAreHalfEmpty);
+                }
+                Ok(h) => {
+                    if $mode & 1 != 0 {
+                        assert!(expect.is_ok());
+                    }
+                    if q3 == 0 {
+                        q1 = 1;
+                        q2 = 1;
+                        q3 = 1;
+                    }
+                    // checksum carried over, length code of the bytes fed
+                    let code = h.length().value() as usize;
+                    if $mode & 2 != 0 {
+                        assert!(h.checksum().data()[..] == g.checksum.data()[..]);
+                        assert!(code < 170 && ref_len_code_is(total as u32, code));
+                        assert!(h.length().is_valid());
+                    }
+                    // body: first bucket in the low bits of the last byte, strict `>`
+                    let k: usize = kani::any();
+                    kani::assume(k < $sb);
+                    let base = 4 * ($sb - 1 - k);
+                    let e = ref_quartile(b[base], q1, q2, q3)
+                        | (ref_quartile(b[base + 1], q1, q2, q3) << 2)
+                        | (ref_quartile(b[base + 2], q1, q2, q3) << 4)
+                        | (ref_quartile(b[base + 3], q1, q2, q3) << 6);
+                    if $mode & 4 != 0 {
+                        assert!(h.body().data()[k] == e);
+                    }
+                    if $check_q {
+                        let (e1, e2) = if pure_int {
+                            (
+                                (((q1 as u64 * 100) / q3 as u64) % 16) as u8,
+                                (((q2 as u64 * 100) / q3 as u64) % 16) as u8,
+                            )
+                        } else {
+                            (
+                                ref_qratio_f32(q1, q3),
+                                ref_qratio_f32(q2, q3),
+                            )
+                        };
+                        assert!(h.qratios().q1ratio() == e1);
+                        assert!(h.qratios().q2ratio() == e2);
+                        assert!(h.qratios().value() == (e2 << 4 | e1));
+                    }
+                    kani::cover!(total == 4_224_281_216 && code == 169);
+                    kani::cover!(q3 > 1 && q1 < q2 && q2 < q3);
+                }
+            }
+        }
+    };
+}
+
+/// Legacy (TLSH <= 4.12.0) Q ratio: unsigned 32-bit product, single-precision division, truncation.
+fn ref_qratio_f32(q: u32, q3: u32) -> u8 {
+    let num = q.wrapping_mul(100) as f32;
+    let den = q3 as f32;
+    let quo = num / den;
+    ((quo as u32) % 16) as u8
+}
+
+//@ h=f_short_main props=C01,C10,C11,C15,C03 cfgs=K1 tier=q t=900 | funcs: inner::Generator<Short>::finalize_with_options, processed_len, DataLengthValidity, naive aggregate_48, FuzzyHash::from_raw | bound: ALL states: 48 symbolic u32 counters (incl. >=2^24, >=2^31), symbolic len (full u32) and tail_len<=4, symbolic checksum, all 32 option settings; gates in order, checksum, length code and body checked, state unchanged by finalize; Q-ratio value not checked here | stubs: <[u32]>::select_nth_unstable -> order statistic of the ghost copy defined by counting (+ explicit monotonicity); FuzzyHashLengthEncoding::new -> its contract (proved by c09_new_total/c09_code_def)
+lemma_f!(f_short_main, GShort, sym_short, 48, 12, None::<u32>, false, 52, 7, false);
+//@ h=f_normal_main props=C01,C10,C11,C15,C03 cfgs=K1 tier=q t=1500 | funcs: inner::Generator<Normal>::finalize_with_options, naive aggregate_128 | bound: as f_short_main with 128 counters, but the three quartiles are ANY q1<=q2<=q3 (superset of the real order statistics; the honest order-statistic model is used on the 48-counter instance of the same generic code) | stubs: select_nth_unstable order-statistic model; FuzzyHashLengthEncoding::new contract
+lemma_f!(f_normal_main, GNormal, sym_normal, 128, 32, None::<u32>, false, 132, 7, true);
+//@ h=f_normall_main props=C01,C10,C11,C15 cfgs=K1 tier=t t=1800 | funcs: inner::Generator<NormalWithLongChecksum>::finalize_with_options | bound: as f_short_main with 128 counters, but the three quartiles are ANY q1<=q2<=q3 (superset of the real order statistics; the honest order-statistic model is used on the 48-counter instance of the same generic code), 3-byte checksum | stubs: select_nth_unstable order-statistic model; FuzzyHashLengthEncoding::new contract
+lemma_f!(f_normall_main, GNormalL, sym_normal_l, 128, 32, None::<u32>, false, 132, 7, true);
+//@ h=f_long_main props=C01,C10,C11,C15 cfgs=K1 tier=q t=2400 | funcs: inner::Generator<Long>::finalize_with_options, naive aggregate_256 | bound: as f_short_main with 256 counters, but the three quartiles are ANY q1<=q2<=q3 (superset of the real order statistics) | stubs: select_nth_unstable order-statistic model; FuzzyHashLengthEncoding::new contract
+lemma_f!(f_long_main, GLong, sym_long, 256, 64, None::<u32>, false, 260, 7, true);
+//@ h=f_longl_main props=C01,C10,C11,C15 cfgs=K1 tier=t t=2400 | funcs: inner::Generator<LongWithLongChecksum>::finalize_with_options | bound: as f_short_main with 256 counters, but the three quartiles are ANY q1<=q2<=q3 (superset of the real order statistics), 3-byte checksum | stubs: select_nth_unstable order-statistic model; FuzzyHashLengthEncoding::new contract
+lemma_f!(f_longl_main, GLongL, sym_long_l, 256, 64, None::<u32>, false, 260, 7, true);
+//@ h=f_short_q8 props=C01 cfgs=K1 tier=q t=1200 | funcs: inner::Generator<Short>::finalize_with_options (Q-ratio arithmetic, both modes) | bound: as f_short_main but third quartile < 2^8 (equivalence of two dividers is SAT-hard beyond ~10 bits); integer mode vs the u64 formula, legacy mode vs CBMC's IEEE-754 single-precision semantics of the reference formula | stubs: select_nth_unstable order-statistic model; FuzzyHashLengthEncoding::new contract | assume: q3 < 256
+lemma_f!(f_short_q8, GShort, sym_short, 48, 12, Some(8u32), true, 52, 0, false);
+//@ h=f_short_q10 props=C01 cfgs=K1 tier=t t=3000 | funcs: inner::Generator<Short>::finalize_with_options (Q-ratio arithmetic) | bound: third quartile < 2^10 | stubs: as f_short_q8 | assume: q3 < 1024
+lemma_f!(f_short_q10, GShort, sym_short, 48, 12, Some(10u32), true, 52, 0, false);
+//@ h=f_normal_q8 props=C01 cfgs=K1 tier=t t=2400 | funcs: inner::Generator<Normal>::finalize_with_options (Q-ratio arithmetic) | bound: third quartile < 2^8 | stubs: as f_short_q8 | assume: q3 < 256
+lemma_f!(f_normal_q8, GNormal, sym_normal, 128, 32, Some(8u32), true, 132, 0, true);
+//@ h=f_long_q8 props=C01 cfgs=K1 tier=t t=3000 | funcs: inner::Generator<Long>::finalize_with_options (Q-ratio arithmetic) | bound: third quartile < 2^8 | stubs: as f_short_q8 | assume: q3 < 256
+lemma_f!(f_long_q8, GLong, sym_long, 256, 64, Some(8u32), true, 260, 0, true);
